@@ -260,6 +260,22 @@ def impl(case):
                 if any(x.shape != qv[0].shape for x in pq):
                     raise RuntimeError(f"{nm}: prediction shape {pq[0].shape} is not the query's shape {qv[0].shape}")
                 res[nm] = [x.ravel().tolist() for x in pq]
+            # the query as a "sparse" meshgrid - a row of eastings and a column of northings that BROADCAST to the grid: the prediction has the
+            # broadcast shape and the dense grid's values.  (The scipy-based gridders accept such queries; the others refuse arrays of different
+            # sizes with a ValueError, which is a refusal, not a prediction.)
+            for nm, (nx_, ny_) in {"query-sparse-meshgrid": (3, 4), "query-sparse-meshgrid-square": (3, 3)}.items():
+                gx, gy = np.linspace(qE.min(), qE.max(), nx_), np.linspace(qN.min(), qN.max(), ny_)
+                try:
+                    ps = gq.predict(tuple(np.meshgrid(gx, gy, sparse=True)))
+                except ValueError:
+                    if kind in ("linear", "cubic"):
+                        raise
+                    continue
+                ps = [np.asarray(x, dtype=float) for x in (ps if isinstance(ps, tuple) else (ps,))]
+                if any(x.shape != (ny_, nx_) for x in ps):
+                    raise RuntimeError(f"{nm}: prediction shape {ps[0].shape} is not the broadcast shape {(ny_, nx_)}")
+                pdn = gq.predict(tuple(np.meshgrid(gx, gy)))
+                res["mixed:" + nm] = [[x.ravel().tolist() for x in ps], [np.asarray(x, dtype=float).ravel().tolist() for x in (pdn if isinstance(pdn, tuple) else (pdn,))]]
             # integer query coordinates give the same predictions as float ones
             coords, data, weights = _variants(kind, es, ns, d1, d2, w, perm, seed)["base"]
             iq = (np.array(IQ[0]), np.array(IQ[1]))
